@@ -7,6 +7,11 @@ import (
 	"strconv"
 
 	"verif/internal/fw"
+	_ "verif/internal/p11"
+	_ "verif/internal/p13"
+	_ "verif/internal/p14"
+	_ "verif/internal/p16"
+	_ "verif/internal/p17"
 	_ "verif/internal/props"
 )
 
